@@ -177,13 +177,22 @@ def go(kind_i, cache_size, ops, fresh_reader):
 LRUF = r'''
 def lru___A__(kind_i: int, cache_size: int, o2: int, o3: int, o4: int) -> bool:
     """
-    pre: 0 <= kind_i <= 1 and 1 <= cache_size <= 2 and 0 <= o2 < NOPS and 0 <= o3 < NOPS and 0 <= o4 < NOPS
+    pre: 0 <= kind_i <= 1 and 1 <= cache_size <= 2 and 0 <= o2 < NOPS and 0 <= o3 < NOPS and __O4PRE__
     post: _
     """
-    return go(kind_i, cache_size, [__A__, o2, o3, o4], True)
+    return go(kind_i, cache_size, [__A__, o2, o3, o4][:__LEN__], True)
 '''
 
 LRUX = r'''
+def lru_after_foreign_purge(kind_i: int, cache_size: int, i: int, o3: int, o4: int) -> bool:
+    """
+    pre: 0 <= kind_i <= 1 and 1 <= cache_size <= 2 and 0 <= i <= 2 and 0 <= o3 < NOPS and 0 <= o4 < NOPS
+    post: _
+    """
+    # reachable pre-state: content i serialised (local cache warm), then the shared backend purged by another process
+    i = pick(i, 0, 2)
+    return go(kind_i, cache_size, [i, 10, o3, o4], True)
+
 def lru_twin(kind_i: int, o1: int, o2: int) -> bool:
     """
     pre: 0 <= kind_i <= 1 and 0 <= o1 < NOPS and 0 <= o2 < NOPS
@@ -335,10 +344,10 @@ def run(ctx: Ctx) -> None:
     src = LRU
     conds = []
     for a in range(11):
-        src += LRUF.replace("__A__", str(a))
-        conds.append(Cond(f"lru_{a}", "confirm", 900, keyfn=_key_from_replay))
+        src += LRUF.replace("__A__", str(a)).replace("__O4PRE__", "0 <= o4 < NOPS" if thorough else "o4 == 0").replace("__LEN__", "4" if thorough else "3")
+        conds.append(Cond(f"lru_{a}", "confirm", 3000 if thorough else 900, keyfn=_key_from_replay))
     src += LRUX
-    conds += [Cond("lru_twin", "refute", 60),
+    conds += [Cond("lru_after_foreign_purge", "confirm", 900, keyfn=_key_from_replay), Cond("lru_twin", "refute", 60),
               Cond("cache_size_zero", "confirm", 300, keyfn=_key_from_replay),
               Cond("finding_same_process_alias", "finding", 120, key="C15:reference-resolves-to-other-content:same-process-alias",
                    what="serialize(obj) caches the caller's own object under the reference: after the caller mutates obj, resolve(ref) in the same process returns the mutated value")]
@@ -349,7 +358,7 @@ def run(ctx: Ctx) -> None:
     ctx.functions_encoded += ["BaseClientDataStore.serialize/_maybe_store/resolve/_resolve_reference/_cache_deserialized/purge", "Mem/SQLite client data store _store/_retrieve/_purge",
                               "TaskId.key/from_key", "CallId.key/from_key", "Arguments.from_call", "Call.call_id/args_id", "compute_args_id (hunt only)"]
     ctx.bounds = {"routing": "content string len <= 3 (any Unicode), thresholds unbounded non-negative ints, both flags",
-                  "lru": "4 ops over 11 letters (serialize / resolve / purge / purge of the shared backend by another process / mutate-the-caller's-object over 3 contents), cache size 1..2 (+ size 0 separately), both stores, reader without local cache",
+                  "lru": "3 ops (thorough 4; plus 2 free ops after [serialize, foreign purge]) over 11 letters (serialize / resolve / purge / purge of the shared backend by another process / mutate-the-caller's-object over 3 contents), cache size 1..2 (+ size 0 separately), both stores, reader without local cache",
                   "ids": "module/function/args-id strings of length <= 3 / <= 2",
                   "spellings": "4 signatures (defaults, keyword-only, None default), positional prefix 0..4, every subset of omitted defaults",
                   "hunt": f"{budget}s per condition: two dicts of 2 entries, strings <= 2 chars, json.dumps replaced by a pure model validated on every code point below U+D800"}
